@@ -41,6 +41,32 @@ def histories_for(members, rnd, n, maxlen=14):
     return out
 
 
+def collision_archives(rnd, tier):
+    """Archives in which entries collide on disk: the same name stored twice or as different kinds (file, directory, dangerous
+    symlink, safe symlink, file below it).  What an extract call finds in place when it runs - nothing, its own placeholder,
+    a directory, a link to a directory - selects return paths that ordinary archives never reach."""
+    import itertools
+    lv = lambda: rnd.choice([0, 1, 2, 3])
+    kinds = {
+        'file': lambda: arc.file_member(rnd, rnd.choice(['-lh0-', '-lh5-']), b'x', size=7, level=lv()),
+        'dir': lambda: arc.dir_member(b'x/', level=lv(), perms=0o40755),
+        'danger': lambda: arc.symlink_member(b'x', b'..', level=lv()),
+        'danger2': lambda: arc.symlink_member(b'x', b'/abs/elsewhere', level=lv()),
+        'safe': lambda: arc.symlink_member(b'x', b'y', level=lv()),
+        'below': lambda: arc.file_member(rnd, '-lh0-', b'f', size=5, level=lv(), path=b'x/'),
+        'dangerbelow': lambda: arc.symlink_member(b'x/l', b'../..', level=lv()),
+    }
+    out = []
+    names = sorted(kinds)
+    seqs = list(itertools.product(names, repeat=2))
+    tri = list(itertools.product(names, repeat=3))
+    rnd.shuffle(tri)
+    seqs += tri[:(40 if tier == 'quick' else len(tri))]
+    for sq in seqs:
+        out.append(('collision:' + '+'.join(sq), [kinds[k]() for k in sq]))
+    return out
+
+
 def corpus_archives(tier, rnd):
     want = ['regression/symlink1.lzh', 'regression/symlink2.lzh', 'regression/symlink3.lzh', 'regression/dir.lzh',
             'lha_unix114i/h2_subdir.lzh', 'lha_unix114i/h1_subdir.lzh', 'lha_unix114i/h0_subdir.lzh', 'lha_unix114i/h2_symlink2.lzh',
@@ -177,6 +203,19 @@ def run(ctx):
         if bad and i % 2 == 0:
             bad[0].m['crc'] ^= 0x5a5a
         items.append(('generated-%d' % i, arc.archive(members), histories_for(members, rnd, 4 if ctx.tier == 'quick' else 12)[:(14 if ctx.tier == 'quick' else 80)]))
+    ncoll = 0
+    for name, members in collision_archives(rnd, ctx.tier):
+        full = []
+        for op in (('X',) if ctx.tier == 'quick' else ('X', 'XN', 'C')):
+            h = []
+            for _ in range(len(members) + 4):
+                h += ['N', op]
+            full.append(tuple(h))
+            if ctx.tier == 'thorough':
+                full += [tuple(h[:c]) for c in range(2, len(h), 2)]
+        items.append((name, arc.archive(members), full))
+        ncoll += 1
+    ctx.cov['collision_archives'] = ncoll
     for name, A in corpus_archives(ctx.tier, rnd):
         full = []
         for op in ('X', 'C', 'RA'):
@@ -195,7 +234,8 @@ def run(ctx):
     ctx.cov['exhaustive'] = True
     ctx.cov['exhaustive_subspace'] = 'for every (archive, history) run: every k in 1..N where N = allocations made by the library in the fault-free run'
     ctx.cov['rule'] = ('(archive, history, policy, stream kind, k) tuples; histories obey the C15 side conditions and include every prefix of full '
-                       'walks (abandon anywhere, also while a re-presented directory or deferred symlink is current), extraction with header paths '
+                       'walks (abandon anywhere; archives whose entries collide on disk - the same name twice or as file/directory/dangerous/safe symlink - so '
+                       'that extract calls find unexpected things in place, also while a re-presented directory or deferred symlink is current), extraction with header paths '
                        'and explicit names; k enumerated over all allocations; distinct by the whole tuple; non-trivial = history longer than one op '
                        'or any injected run')
     ctx.assumptions.append('only allocations made by lhasa code are monitored (link-time wrap); libc-internal ones are covered by descriptor balance and ASan')
